@@ -545,3 +545,34 @@ func UpdateTwice(seller sdk.AccAddress, k int, q1, q2 string) E {
 		return Msg(fmt.Sprintf("%s[id=%d]", name, id), &markettypes.MsgUpdateSellOrders{Seller: seller.String(), Updates: []*markettypes.MsgUpdateSellOrders_Update{mkU(q1), mkU(q2)}})
 	}}
 }
+
+// UpdateTwiceThenForeign: one MsgUpdateSellOrders naming the signer's own k-th order twice and then the first
+// order of ANOTHER seller (duplicates are admitted by the stateless validation; the foreign order must make the
+// whole message fail).
+func UpdateTwiceThenForeign(signer sdk.AccAddress, k int, victim sdk.AccAddress) E {
+	name := fmt.Sprintf("UpdateSellOrders(%s,own order#%d twice then %s's first order)", n(signer), k, n(victim))
+	return E{Name: name, Make: func(pre *chain.Snapshot) *explore.Action {
+		id, ok := OrderSel(pre, signer, k)
+		vid, vok := OrderSel(pre, victim, 0)
+		if !ok || !vok {
+			return nil
+		}
+		mkU := func(id uint64, q string, price int64) *markettypes.MsgUpdateSellOrders_Update {
+			o := pre.Order(id)
+			den := "uregen"
+			if mk := pre.Market(o.MarketId); mk != nil {
+				den = mk.BankDenom
+			}
+			amt, _ := sdk.NewIntFromString(o.AskAmount)
+			if price > 0 {
+				amt = sdk.NewInt(price)
+			}
+			if q == "" {
+				q = o.Quantity
+			}
+			return &markettypes.MsgUpdateSellOrders_Update{SellOrderId: id, NewQuantity: q, NewAskPrice: &sdk.Coin{Denom: den, Amount: amt}, DisableAutoRetire: o.DisableAutoRetire}
+		}
+		return Msg(fmt.Sprintf("%s[own=%d,foreign=%d]", name, id, vid), &markettypes.MsgUpdateSellOrders{Seller: signer.String(),
+			Updates: []*markettypes.MsgUpdateSellOrders_Update{mkU(id, "", 0), mkU(id, "", 0), mkU(vid, "", 1)}})
+	}}
+}
